@@ -15,7 +15,7 @@
    quantified oracles. *)
 From Verif Require Import Base.Prelude Model.CharClass Model.FoldD
   Proofs.CharClassRanges Proofs.CharClassProofs Proofs.CharClassOverlap Proofs.CharClassElab
-  Proofs.CharClassFold Proofs.CharClassFoldThm.
+  Proofs.CharClassFold Proofs.CharClassFoldThm Proofs.CharClassCi Proofs.CharClassCi2 Proofs.CharClassCi3.
 
 (* ------------------------------------------------------------------------------------------------
    lookup_paths_agree: on a canonical class every lookup path is plain membership, for EVERY rune
@@ -228,6 +228,39 @@ Theorem C16_case_equiv_closed :
               (mem (ranges c) ch = true -> mem (ranges c) (fold_t ch) = true).
 Proof. exact case_equiv_closed_range. Qed.
 Print Assumptions C16_case_equiv_closed.
+
+(* case_equiv_closed, GENERAL form (proved, not computed): for oracles that agree with the table on
+   dom_t (leg c16-class-0 checks that the table is what the running toolchain computes) and ANY class
+   - any number of unsorted, overlapping single members and ranges, any categories, either negate flag -
+   whose code-point members lie in good_dom, addLowercase followed by addCaseEquivalences yields a
+   canonical class with the same categories and negate flag whose range part contains a rune z of the
+   table exactly when some member of z's SimpleFold orbit was a member before: the closure of the
+   members under the orbit relation, nothing more and nothing less.
+   good_dom is dom_t without the three runes of C16_bad_points (on which ToLower or the lcTable entry
+   leaves the SimpleFold orbit). *)
+Theorem C16_case_equiv_closed_general :
+  forall (cat_in : Z -> Z -> bool) (simple_fold to_lower : Z -> Z),
+    (forall x, In x dom_t -> simple_fold x = fold_t x /\ to_lower x = lower_t x) ->
+    forall c,
+      anything c = false -> sub c = None -> wf_ranges (ranges c) ->
+      (forall x, mem (ranges c) x = true -> In x good_dom) ->
+      exists c',
+        add_case_equivalences cat_in simple_fold orbit_fuel (add_lowercase cat_in to_lower c) = Ok c' /\
+        neg c' = neg c /\ cats c' = cats c /\ sub c' = None /\ anything c' = false /\ ascii c' = ascii c /\
+        canonical_ranges (ranges c') /\ wf_ranges (ranges c') /\
+        forall z, In z dom_t ->
+          mem (ranges c') z = existsb (fun x => mem (ranges c) x) (orbit simple_fold orbit_fuel z).
+Proof. exact ci_closure. Qed.
+Print Assumptions C16_case_equiv_closed_general.
+
+(* the runes of the table outside good_dom: U+00D7 (lcTable maps it to U+00F7), U+0130 (ToLower is 'i'),
+   U+1E9E (lcTable maps it to U+1E9F) - all outside C16's IgnoreCase domain; 961 of the 964 table
+   runes are good, among them all of ASCII and all of pair_dom *)
+Theorem C16_bad_points :
+  bad_pts = [215; 304; 7838] /\
+  forallb (fun x => zmem x good_dom) (ascii_dom ++ pair_dom) = true.
+Proof. split; vm_compute; reflexivity. Qed.
+Print Assumptions C16_bad_points.
 
 (* the table is closed under SimpleFold and ToLower, every orbit in it is a cycle of at most four
    runes, and the letters of pair_dom really are plain pairs *)
